@@ -25,6 +25,7 @@ import (
 	"github.com/siglens/siglens/pkg/hooks"
 	"github.com/siglens/siglens/pkg/lookups"
 	usq "github.com/siglens/siglens/pkg/usersavedqueries"
+	eswriter "github.com/siglens/siglens/pkg/es/writer"
 	vtable "github.com/siglens/siglens/pkg/virtualtable"
 	"github.com/valyala/fasthttp"
 )
@@ -53,6 +54,14 @@ type kvOp struct {
 	k, k2, v string
 	form     byte // 0: bare key, '=': k=v, '>': k>k2, 'l': no key, 'R'
 	id, pid  int  // dash store: object id, parent id (-1 = not given)
+	acts     []kvAliasAct // alias store: the actions of one POST _aliases request (kind 'P')
+}
+
+// one action of a POST _aliases request: 'a' add {index}, 'A' add {indices}, 'r' remove, 'x' an action the handler cannot read
+type kvAliasAct struct {
+	kind    byte
+	indexes []string
+	alias   string
 }
 
 func kvHexLower(s string) (string, bool) {
@@ -224,6 +233,8 @@ func (r *kvRun) audit(st kvStore, when string) {
 			class = "other-tenant-disturbed"
 		case r.lastTok != "ok" && !strings.HasPrefix(r.lastTok, "ok:") && strings.ContainsRune("cudrfx", rune(r.lastOp.kind)):
 			class = "failed-op-changes-state" // the operation was refused, yet what the tenant reads changed
+		case class == "lost" && r.lastOp.kind == 'P' && r.lastTok == "ok":
+			class = "request-acknowledged-not-stored"
 		case class == "lost" && (r.lastOp.kind == 'c' || r.lastOp.kind == 'u' || r.lastOp.kind == 'f'):
 			class = "ok-but-not-stored"
 		case class == "ghost" && (r.lastOp.kind == 'd' || r.lastOp.kind == 'x'):
@@ -358,7 +369,7 @@ func execKV(line string) Result {
 		run.lastTok = tok
 		toks = append(toks, tok)
 		switch op.kind {
-		case 'c', 'u', 'r', 'd', 'f', 'x', 'v':
+		case 'c', 'u', 'r', 'd', 'f', 'x', 'v', 'P':
 			if tok == "ok" || strings.HasPrefix(tok, "ok:") || tok == "0" || tok == "1" {
 				writes++
 			}
@@ -499,7 +510,7 @@ func genKV(r *rand.Rand, n int, tier string) []string {
 			bad := []string{
 				"kv " + store, "kv nostore l0", "kv " + store + " l3", "kv " + store + " c0.6=61", "kv " + store + " c0.61=6G", "kv " + store + " c0.61=62=63",
 				"kv " + store + " x0.61", "kv " + store + " l0.61", "kv " + store + " c3.61=62", "kv " + store + " d0", "kv " + store + " c0,61=62",
-				"kv " + store + " C0.61=62", "kv " + store + " c0.6A=62", "kv " + store + " r0.61>62>63", "kv " + store + " RR", "kv usq G", "kv " + store + " GG", "kv " + store + " g0.61 ll0",
+				"kv " + store + " C0.61=62", "kv " + store + " c0.6A=62", "kv " + store + " r0.61>62>63", "kv " + store + " RR", "kv usq G", "kv alias P0.", "kv alias P0.a69", "kv alias P3.x", "kv usq P0.x", "kv alias P0.a69=61,,x", "kv " + store + " GG", "kv " + store + " g0.61 ll0",
 				"kv " + store + " r0.61>62", "kv " + store + " q0.61=62",
 			}
 			out = append(out, bad[r.Intn(len(bad))])
@@ -603,6 +614,28 @@ func genKVLine(r *rand.Rand, store string) string {
 			}
 		case "alias":
 			a := kvHex(kvPick(r, pool2))
+			if r.Intn(5) == 0 { // one POST _aliases request with 1–4 actions
+				var acts []string
+				for n := 1 + r.Intn(4); n > 0; n-- {
+					i, al := kvHex(kvPick(r, pool)), kvHex(kvPick(r, pool2))
+					switch y := r.Intn(20); {
+					case y < 7:
+						acts = append(acts, "a"+i+"="+al)
+					case y < 13:
+						var is []string
+						for m := r.Intn(4); m > 0; m-- {
+							is = append(is, kvHex(kvPick(r, pool)))
+						}
+						acts = append(acts, "A"+strings.Join(is, "+")+"="+al)
+					case y < 19:
+						acts = append(acts, "r"+i+"="+al)
+					default:
+						acts = append(acts, "x")
+					}
+				}
+				ops = append(ops, fmt.Sprintf("P%d.%s", t, strings.Join(acts, ",")))
+				continue
+			}
 			switch {
 			case x < 38:
 				ops = append(ops, fmt.Sprintf("c%d.%s=%s", t, k, a))
@@ -809,6 +842,8 @@ func (s *kvUsq) apply(op kvOp) string {
 //   c<t>.<index>=<alias> AddAliases      d<t>.<index>=<alias> RemoveAliases     g<t>.<index> GetAliases
 //   l<t> GetAllAliasesAsMapArray         q<t>.<alias> IsAlias
 //   G graceful shutdown (FlushAliasMapToFile, as ShutdownSiglensServer calls it) followed by a restart
+//   P<t>.<action>,… one POST _aliases request through the REAL handler es/writer.ProcessPostAliasesRequest
+//     (a<index>=<alias> add/index, A<index>+…=<alias> add/indices, r<index>=<alias> remove, x unknown action) → ok | bad
 // shadow key: "<index>\x00<alias>" ↦ "1"; readAll merges both read directions: "F"/"M" = seen in the
 // file view / in the memory view.
 type kvAlias struct {
@@ -816,9 +851,59 @@ type kvAlias struct {
 	touched [3]map[string]bool // index names ever used (GetAliases is asked for each)
 }
 
+// P<t>.<action>,<action>,…   action ::= a<index>=<alias> | A<index>+<index>…=<alias> | r<index>=<alias> | x
+func kvParseAliasPost(tok string) (kvOp, bool) {
+	if len(tok) < 4 || tok[0] != 'P' || tok[1] < '0' || tok[1] > '2' || tok[2] != '.' {
+		return kvOp{}, false
+	}
+	op := kvOp{kind: 'P', t: int(tok[1] - '0'), form: 'P'}
+	for _, a := range strings.Split(tok[3:], ",") {
+		if a == "x" {
+			op.acts = append(op.acts, kvAliasAct{kind: 'x'})
+			continue
+		}
+		if a == "" {
+			return kvOp{}, false
+		}
+		is, al, ok := kvSplit1(a[1:], "=")
+		if !ok {
+			return kvOp{}, false
+		}
+		act := kvAliasAct{kind: a[0]}
+		if act.alias, ok = kvHexLower(al); !ok {
+			return kvOp{}, false
+		}
+		switch a[0] {
+		case 'a', 'r':
+			i, ok := kvHexLower(is)
+			if !ok {
+				return kvOp{}, false
+			}
+			act.indexes = []string{i}
+		case 'A':
+			if is != "" {
+				for _, h := range strings.Split(is, "+") {
+					i, ok := kvHexLower(h)
+					if !ok {
+						return kvOp{}, false
+					}
+					act.indexes = append(act.indexes, i)
+				}
+			}
+		default:
+			return kvOp{}, false
+		}
+		op.acts = append(op.acts, act)
+	}
+	return op, true
+}
+
 func (s *kvAlias) parse(tok string) (kvOp, bool) {
 	if tok == "G" { // graceful shutdown (FlushAliasMapToFile) + restart
 		return kvOp{kind: 'G', form: 'R'}, true
+	}
+	if strings.HasPrefix(tok, "P") {
+		return kvParseAliasPost(tok)
 	}
 	op, ok := kvParseTok(tok)
 	return op, ok && s.accepts(op)
@@ -924,9 +1009,90 @@ func kvAliasErr(err error) string {
 	return "err:" + strings.ReplaceAll(err.Error(), " ", "_")
 }
 
+// resync: go on from what the alias files hold (after a refused request only a prefix of it was applied)
+func (s *kvAlias) resync(t int) {
+	n := map[string]string{}
+	for idx := range s.touched[t] {
+		if !vtable.IsValidIndexName(idx) {
+			continue
+		}
+		if as, err := vtable.GetAliases(idx, kvOrgs[t]); err == nil {
+			for a := range as {
+				n[idx+"\x00"+a] = "1"
+			}
+		}
+	}
+	s.shadow[t] = n
+}
+
+// post drives the REAL handler of POST _aliases (es/writer.ProcessPostAliasesRequest) with one request.
+func (s *kvAlias) post(op kvOp) string {
+	var actions []map[string]interface{}
+	mustRefuse := ""
+	for _, a := range op.acts {
+		for _, i := range a.indexes {
+			s.touched[op.t][i] = true
+			if !vtable.IsValidIndexName(i) && mustRefuse == "" {
+				mustRefuse = fmt.Sprintf("index name %q is not a valid name", i)
+			}
+		}
+		if a.kind != 'x' && a.kind != 'r' && !vtable.IsValidIndexName(a.alias) && len(a.indexes) > 0 && mustRefuse == "" {
+			mustRefuse = fmt.Sprintf("alias name %q is not a valid name", a.alias)
+		}
+		switch a.kind {
+		case 'a':
+			actions = append(actions, map[string]interface{}{"add": map[string]interface{}{"index": a.indexes[0], "alias": a.alias}})
+		case 'A':
+			is := []interface{}{}
+			for _, i := range a.indexes {
+				is = append(is, i)
+			}
+			actions = append(actions, map[string]interface{}{"add": map[string]interface{}{"indices": is, "alias": a.alias}})
+		case 'r':
+			actions = append(actions, map[string]interface{}{"remove": map[string]interface{}{"index": a.indexes[0], "alias": a.alias}})
+		case 'x':
+			actions = append(actions, map[string]interface{}{"frobnicate": map[string]interface{}{"index": "i", "alias": "a"}})
+			if mustRefuse == "" {
+				mustRefuse = "the action name is unknown"
+			}
+		}
+	}
+	body, _ := json.Marshal(map[string]interface{}{"actions": actions})
+	ctx := kvCtx(body, nil)
+	eswriter.ProcessPostAliasesRequest(ctx, kvOrgs[op.t])
+	switch ctx.Response.StatusCode() {
+	case 200:
+		if !strings.Contains(string(ctx.Response.Body()), "\"acknowledged\":true") {
+			return "err:200-without-acknowledged"
+		}
+		if mustRefuse != "" {
+			kvCurRun.fail("refused-action-acknowledged", fmt.Sprintf("POST _aliases %s is answered 200 acknowledged although %s", trunc(string(body), 300), mustRefuse))
+			s.resync(op.t)
+			return "ok"
+		}
+		// acknowledged ⇔ stored: every action of the request is in force
+		for _, a := range op.acts {
+			for _, i := range a.indexes {
+				if a.kind == 'r' {
+					delete(s.shadow[op.t], i+"\x00"+a.alias)
+				} else {
+					s.shadow[op.t][i+"\x00"+a.alias] = "1"
+				}
+			}
+		}
+		return "ok"
+	case 400:
+		s.resync(op.t)
+		return "bad"
+	}
+	return fmt.Sprintf("err%d", ctx.Response.StatusCode())
+}
+
 func (s *kvAlias) apply(op kvOp) string {
 	org := kvOrgs[op.t]
 	switch op.kind {
+	case 'P':
+		return s.post(op)
 	case 'c':
 		s.touched[op.t][op.k] = true
 		err := vtable.AddAliases(op.k, []string{op.v}, org)
